@@ -13,6 +13,7 @@ Inductive case19 :=
 | CDeser (data : dict)
 | CSort (l : list (text * Z))                      (* sorted(entries, key=attrgetter("name")) *)
 | CPathSort (parent : path) (l : list (text * Z))  (* sorted([(parent / name, tag)], key=itemgetter(0)) *)
+| CPathSortW (parent : path) (l : list (text * Z)) (* the same with PureWindowsPath *)
 | CRepr (printable : list Z) (name : text) (is_dir : bool) (size : option Z) (mdate : option mtime).
 
 Definition sx_ofse (o : option fse) : sx := sx_opt sx_fse o.
@@ -32,6 +33,9 @@ Definition run19 (c : case19) : sx :=
   | CPathSort parent l =>
       sx_list (fun p => L [sx_text (fst p); A (snd p)])
               (sort_g (fun a b => path_ltb (parent ++ [fst a]) (parent ++ [fst b])) l)
+  | CPathSortW parent l =>
+      sx_list (fun p => L [sx_text (fst p); A (snd p)])
+              (sort_g (fun a b => path_ltb_win (parent ++ [fst a]) (parent ++ [fst b])) l)
   | CRepr pl n d s m =>
       sx_opt sx_text (match mk_entry n d s m with
                       | None => None
